@@ -184,7 +184,8 @@ func zeroContent(op string) any {
 
 var rejectReasons = []string{"", "no", "denied by policy", "quota exceeded: 5", "é", "send request to plugin error?"}
 
-var garbageBodies = []string{"", "not json", "{", `{"reject": "yes"}`, `[1,2]`, `{"unchange":false,"content":"str"}`,
+var garbageBodies = []string{`{"reject":false,"unchange":true}}`, `{"reject":false,"unchange":true}{"reject":true}`,
+	`{"reject":false,"unchange":true}<html>502 Bad Gateway</html>`, `{"unchange":true} x`, "", "not json", "{", `{"reject": "yes"}`, `[1,2]`, `{"unchange":false,"content":"str"}`,
 	`{"unchange":false,"content":{"user":5}}`, `{"reject":false,"unchange":true} trailing`, "\x00\x01\x02", `{"unchange":tru}`, `"reject"`, `{"reject":false,"unchange":true,"content":[1]}`}
 
 var non200 = []int{201, 204, 400, 401, 403, 404, 500, 502, 503}
@@ -229,11 +230,13 @@ func (g *gen) scriptWith(isHTTP bool, mk func() any, allowNil bool) *script {
 	if s.isErr {
 		switch s.errKind {
 		case "ETransport":
-			switch g.intn(3) {
+			switch g.intn(4) {
 			case 0:
 				s.trFail = "reset"
 			case 1:
 				s.trFail = "close"
+			case 2:
+				s.trFail = "refused" // nobody listens on the plugin's address (level 2 only; elsewhere realised as a reset)
 			default:
 				s.trunc = true
 			}
@@ -362,15 +365,16 @@ func (s *goStub) Handle(_ context.Context, op string, content any) (*plugin.Resp
 // ---- level 2: HTTP stubs ----------------------------------------------------------------
 
 type httpStub struct {
-	onlyOp string   // when set, the script applies to this op only; other ops are accepted unchanged and not recorded
-	notes  []string // proxy names of the CloseProxy notifications received while onlyOp is set
-	id   int
-	ln   net.Listener
-	srv  *http.Server
-	mu   sync.Mutex
-	sc   *script
-	rec  *recorder
-	addr string
+	onlyOp   string   // when set, the script applies to this op only; other ops are accepted unchanged and not recorded
+	notes    []string // proxy names of the CloseProxy notifications received while onlyOp is set
+	noteFail uint64   // bit i set: the i-th notification is answered with a failure (500 / reset / garbage, by i mod 3)
+	id       int
+	ln       net.Listener
+	srv      *http.Server
+	mu       sync.Mutex
+	sc       *script
+	rec      *recorder
+	addr     string
 }
 
 func newHTTPStub(id int, rec *recorder) (*httpStub, error) {
@@ -425,8 +429,29 @@ func (st *httpStub) ServeHTTP(w http.ResponseWriter, r *http.Request) {
 			}
 			_ = json.Unmarshal(req.Content, &cp)
 			st.mu.Lock()
+			idx := len(st.notes)
 			st.notes = append(st.notes, cp.ProxyName)
+			failing := idx < 64 && st.noteFail&(1<<uint(idx)) != 0
 			st.mu.Unlock()
+			if failing {
+				w.Header().Set("Connection", "close")
+				switch idx % 3 {
+				case 0:
+					w.WriteHeader(500)
+				case 1:
+					if hj, ok := w.(http.Hijacker); ok {
+						if c, _, err := hj.Hijack(); err == nil {
+							if tc, ok := c.(*net.TCPConn); ok {
+								_ = tc.SetLinger(0)
+							}
+							c.Close()
+						}
+					}
+				default:
+					_, _ = io.WriteString(w, "{not json")
+				}
+				return
+			}
 		}
 		w.Header().Set("Content-Type", "application/json")
 		_, _ = io.WriteString(w, `{"reject":false,"unchange":true}`)
@@ -448,7 +473,7 @@ func (st *httpStub) ServeHTTP(w http.ResponseWriter, r *http.Request) {
 		if err != nil {
 			return
 		}
-		if sc.trFail == "reset" {
+		if sc.trFail == "reset" || sc.trFail == "refused" {
 			if tc, ok := c.(*net.TCPConn); ok {
 				_ = tc.SetLinger(0)
 			}
@@ -471,6 +496,17 @@ func (st *httpStub) ServeHTTP(w http.ResponseWriter, r *http.Request) {
 		w.WriteHeader(sc.status)
 		_, _ = io.WriteString(w, sc.body)
 	}
+}
+
+// deadPort: a port on addr that was just bound and released: connecting to it is refused
+func deadPort(addr string) int {
+	l, err := net.Listen("tcp", addr+":0")
+	if err != nil {
+		return 1
+	}
+	p := l.Addr().(*net.TCPAddr).Port
+	l.Close()
+	return p
 }
 
 // ---- calling the manager ----------------------------------------------------------------
@@ -515,16 +551,36 @@ var opStringsPool = []string{"Login", "NewProxy", "CloseProxy", "Ping", "NewWork
 
 func (g *gen) opSubset(focus string) []string {
 	var ops []string
+	has := false
 	for _, o := range allOps {
 		p := 0.35
 		if o == focus {
-			p = 0.75
+			p = 0.7
 		}
 		if g.chance(p) {
 			ops = append(ops, o)
+			if o == focus {
+				has = true
+			}
 		}
 	}
-	if g.chance(0.15) {
+	if !has && g.chance(0.5) {
+		// a near miss of the operation asked for: IsSupport compares the strings exactly
+		switch g.intn(6) {
+		case 0:
+			ops = append(ops, strings.ToLower(focus))
+		case 1:
+			ops = append(ops, strings.ToUpper(focus))
+		case 2:
+			ops = append(ops, focus+" ")
+		case 3:
+			ops = append(ops, " "+focus)
+		case 4:
+			ops = append(ops, focus[:len(focus)-1])
+		default:
+			ops = append(ops, "Op"+focus)
+		}
+	} else if g.chance(0.1) {
 		ops = append(ops, opStringsPool[6+g.intn(4)])
 	}
 	// registration order of the strings is irrelevant; shuffle so that nothing depends on it
@@ -555,7 +611,8 @@ const c15Tail = "Definition M := Eval vm_compute in mismatches check_case cases.
 	"Definition NMULTI := Eval vm_compute in (count_if (fun c => (2 <=? n_consulted c)%Z) cases : Z).\nPrint NMULTI.\n" +
 	"Definition NHTTP := Eval vm_compute in (count_if (is_level 2) cases : Z).\nPrint NHTTP.\n" +
 	"Definition NSYS := Eval vm_compute in (count_if is_sys cases : Z).\nPrint NSYS.\n" +
-	"Definition NNOTIFY := Eval vm_compute in (count_if is_notify cases : Z).\nPrint NNOTIFY.\n"
+	"Definition NNOTIFY := Eval vm_compute in (count_if is_notify cases : Z).\nPrint NNOTIFY.\n" +
+	"Definition NUNREACHABLE := Eval vm_compute in (count_if has_blind cases : Z).\nPrint NUNREACHABLE.\n"
 
 func runPlugins(cfg *runCfg) error {
 	log.InitLogger("/dev/null", "error", 0, true)
@@ -601,6 +658,7 @@ func runPlugins(cfg *runCfg) error {
 		scripts := make([]*script, np)
 		m := plugin.NewManager()
 		var scCoq []string
+		var blind []string
 		for i := 0; i < np; i++ {
 			ids[i] = i + 1
 			opsets[i] = g.opSubset(op)
@@ -611,7 +669,11 @@ func runPlugins(cfg *runCfg) error {
 			} else {
 				stubs[i].set(scripts[i])
 				addr := "http://" + stubs[i].addr
-				if g.chance(0.3) {
+				if scripts[i].trFail == "refused" {
+					// an address of ours with no listener: the plugin cannot be reached at all
+					addr = fmt.Sprintf("http://127.0.15.%d:%d", 40+i, deadPort(fmt.Sprintf("127.0.15.%d", 40+i)))
+					blind = append(blind, fmt.Sprint(ids[i]))
+				} else if g.chance(0.3) {
 					addr = stubs[i].addr // NewHTTPPluginOptions adds the scheme
 				}
 				m.Register(plugin.NewHTTPPluginOptions(v1.HTTPPluginOptions{Name: fmt.Sprintf("p%d", ids[i]), Addr: addr, Path: "/handler", Ops: opsets[i]}))
@@ -627,7 +689,7 @@ func runPlugins(cfg *runCfg) error {
 				st.set(nil)
 			}
 		}
-		txt := fmt.Sprintf("CMgr %d %d %s %s %s %s %d %s %s", level, opi, coqPlugins(ids, opsets), coqList(scCoq),
+		txt := fmt.Sprintf("CMgr %d %d %s %s %s %s %s %d %s %s", level, opi, coqPlugins(ids, opsets), coqList(scCoq), coqList(blind),
 			coqHx(cid(mustJSON(zeroContent(op)))), coqHx(cid(c0json)), kind, coqHx(payload), coqSeen(seen))
 		cf.Cases = append(cf.Cases, txt)
 		if len(seen) > 0 {
@@ -670,7 +732,7 @@ func runPlugins(cfg *runCfg) error {
 	rec.mu.Unlock()
 
 	// level 3
-	sysCases, sysDist, sysFail, err := runSys(cfg, g, nSys)
+	sysCases, sysDist, sysFail, err := runSysInChild(cfg, nSys)
 	if err != nil {
 		return err
 	}
